@@ -288,8 +288,10 @@ impl HBox {
                             den: common::Scaled::ONE,
                         };
                     } else {
+                        // The glue sign is "shrinking", which like in the
+                        // general case below is a negative ratio.
                         hbox.glue_ratio = GlueRatio {
-                            num: common::Scaled::ONE,
+                            num: -common::Scaled::ONE,
                             den: common::Scaled::ONE,
                         };
                     }
